@@ -94,6 +94,21 @@ def run_unit(uname, tier, prop):
         R.undecided.append("undeclared assumptions: %s" % ", ".join(undeclared))
     rl = getattr(mod, "RLIMIT", 30)
     v = runner.run_verus(path, rlimit=rl)
+    # helpers the extracted code calls but the unit does not name: pull them in and retry
+    for _round in range(3):
+        if v["ran"]:
+            break
+        missing = set()
+        for d in v["diags"]:
+            m = re.search(r"cannot find function `(\w+)` in this scope", d.message)
+            if m:
+                missing.add(m.group(1))
+        added = [n for n in sorted(missing) if uf.append_missing_fn(n)]
+        if not added:
+            break
+        with open(path, "w") as f:
+            f.write(uf.text())
+        v = runner.run_verus(path, rlimit=rl)
     R.verus = v
     if not v["ran"]:
         R.status = "undecided"
@@ -314,6 +329,24 @@ def main():
         if u.verus:
             smt_s += u.verus["smt_s"]
             checker_cmds.append(u.verus["cmd"])
+    # bounded stand-ins (labelled bounded, never counted as proved): a fixed list of inputs replayed
+    # against the real binary for the parts of a property no contract reaches
+    bounded_fail = []
+    for u in results:
+        for b in getattr(u.mod, "BOUNDED", []):
+            if prop not in b.get("props", [prop]):
+                continue
+            if tier == "quick" and b.get("tier") == "thorough":
+                continue
+            binp = replay_mod.build_binary()
+            if binp is None:
+                undecided.append("%s: bounded stand-in %s: cargo build failed" % (u.unit, b["name"]))
+                continue
+            obs = replay_mod.run_witness(binp, b)
+            bounded.append({"name": "%s.bounded[%s]" % (u.unit, b["name"]), "bound": b.get("bound", "the listed inputs only"),
+                            "passed": not obs.get("reproduced"), "inputs": b.get("n_inputs")})
+            if obs.get("reproduced"):
+                bounded_fail.append((u, b, obs))
     unclaimed = []
     for u in results:
         for f in u.failures:
@@ -401,6 +434,21 @@ def main():
         replay_paths.append(rp)
         lines.append("VIOLATION property=%s replay=%s%s" % (
             prop, rp, "" if reproduced else " no-failing-input-found"))
+    for (u, b, obs) in bounded_fail:
+        oid = "%s.bounded[%s]" % (u.unit, b["name"])
+        kh = [k for k in known if k["property"] == prop and obligation_match(k["obligation"], oid)]
+        if kh:
+            lines.append("KNOWN-FINDING: property=%s %s [%s]" % (prop, kh[0]["what"], oid))
+            continue
+        os.makedirs(os.path.join(ROOT, "replays"), exist_ok=True)
+        rp = os.path.join(ROOT, "replays", "%s-%s.json" % (prop, re.sub(r"[^A-Za-z0-9_.#@\[\]-]+", "_", oid)))
+        with open(rp, "w") as fh:
+            json.dump({"property": prop, "obligation": oid, "kind": "bounded stand-in (not a proof obligation)",
+                       "reproduced": True, "failing_input": b.get("input"), "observed": obs,
+                       "witnesses_tried": [{"witness": {k: b[k] for k in b if k != "props"}, "observed": obs}]}, fh, indent=1)
+        rc = 1
+        seen.add(oid)
+        lines.append("VIOLATION property=%s replay=%s" % (prop, rp))
     if rc == 0 and undecided:
         # The verifier could not decide (lost anchor, construct outside Verus, rlimit).  The unit's
         # candidate inputs are still replayed against the real binary: a reproduced crash or wrong
@@ -475,6 +523,7 @@ def obligation_match(pattern, oid):
 
 
 RULE_NOTES = {
+    "R0d": "field-less enum: derived PartialEq/Eq/Clone/Copy kept and Verus' Structural added (derived equality of a C-like enum is variant equality)",
     "R0": "visibility `pub(crate)`/`pub(super)` -> `pub` (no run-time meaning; the generated file is one crate)",
     "R4": "`for x in A.iter()`/`&A` over Vec/slice -> index loop (definition of slice iteration; increment before body)",
     "R4b": "`for x in V` consuming a Vec -> `let mut it = V.into_iter(); while let Some(x) = it.next()` (definition of `for`)",
